@@ -72,6 +72,11 @@ def step (st : St) (ws : List String) : St × String :=
   | ["new", "nopar"] => ({ par := false }, "ok")
   | ["sys", tag, name, deps, r, w, t] =>
     match st.frames, tag.toNat?, t.toNat? with
+    | f :: rest, some _, some 0 =>
+      -- running-time hint 0: the harness system's `running_time()` panics inside `add`
+      let (b', p) := f.b.addCallbackPanics (unhex name) ((parseList deps).map unhex)
+      ({ st with frames := { f with b := b' } :: rest },
+        match p with | none => "callback-panic" | some p => showPanic p)
     | f :: rest, some tag, some t =>
       let d : Decl := ⟨parseRes r, parseRes w, t⟩
       let (b', p) := f.b.add tag (unhex name) ((parseList deps).map unhex) d
